@@ -63,6 +63,9 @@ func main() {
 		if strings.HasPrefix(os.Args[2], "terms:") {
 			os.Exit(runDebugTerms(strings.TrimPrefix(os.Args[2], "terms:")))
 		}
+		if strings.HasPrefix(os.Args[2], "paths:") {
+			os.Exit(runDebugPaths(strings.TrimPrefix(os.Args[2], "paths:")))
+		}
 		if strings.HasPrefix(os.Args[2], "rule:") {
 			os.Exit(runDebugRule(strings.TrimPrefix(os.Args[2], "rule:")))
 		}
